@@ -76,6 +76,9 @@ func runSendSpaceU(w *mc.Worker, sp *sendSpace, owns ownsFn, nontriv nontrivFn, 
 			switch {
 			case mode == "fixed":
 				sent = &gen.SentLit{E: gen.V("amt")}
+			case mode == "numvar":
+				// a monetary literal whose amount is a number variable: [USD $n]
+				sent = &gen.SentLit{E: &gen.MonLit{Asset: gen.Asset(sp.Asset), Amt: gen.V("n")}}
 			case mode == "all":
 				sent = &gen.SentAll{Asset: gen.Asset(sp.Asset)}
 			default:
@@ -114,6 +117,8 @@ func runSendSpaceU(w *mc.Worker, sp *sendSpace, owns ownsFn, nontriv nontrivFn, 
 						}
 					case "portion":
 						vars[n] = sp.PortVals[in.Choose(len(sp.PortVals))]
+					case "number":
+						vars[n] = sp.AmtDom[in.Choose(len(sp.AmtDom))].String()
 					}
 				}
 				judgeOne(w, prog, text, pr, vars, bal, nil, owns, nontriv)
